@@ -11,7 +11,7 @@ from .minimise import Budget, ddmin
 from .schemajson import schema_from_json, schema_to_json
 
 VERIF = runner.VERIF
-REPLAYS = os.path.join(VERIF, "replays")
+REPLAYS = os.environ.get("VERIF_REPLAY_DIR") or os.path.join(VERIF, "replays")
 
 
 def new_context(prop):
